@@ -22,7 +22,7 @@ func init() { Registry["C17"] = C17 }
 var c17Texts = [][]byte{
 	[]byte(`he said "hi" \ and 'bye'`), []byte("tab\there\nnew\r\nline\x01\x1f\x7f"), []byte("<a href=\"x\">&amp;</a>"),
 	[]byte("h\xc3\xa9llo w\xc3\xb6rld \xe2\x82\xac \xf0\x9f\x98\x80"), []byte("bad\xff\xfeutf\xc3"), []byte("a,b;c\n1,2;3"),
-	[]byte("\u2028\u2029 line seps"), []byte("aab ab b"), []byte("ab,c,d e,f,gh,i jk"), []byte("x"), []byte(""),
+	[]byte("\u2028\u2029 line seps"), []byte("aab ab b"), []byte("name=Zo\ufffd end \ufffd\ufffd x \ufffdy,z\ufffd"), []byte("ab,c,d e,f,gh,i jk"), []byte("x"), []byte(""),
 	// text that already LOOKS like JSON escapes (searching JSON / source code): backslash + u003c etc.
 	[]byte("lit \\u003c \\u003e \\u0026 \\u2028 \\n \\\" \\\\ \\/ end"), []byte("{\"k\":\"v\\u0041\\\"\"}"),
 	// invisible and unusual code points of every plane: format characters (BMP and astral: tag characters, musical and
@@ -122,7 +122,7 @@ func C17(r *drv.Run) {
 	if !quick(r) {
 		n = 80000
 	}
-	r.Rule = "result lists empty / one / many from find and replace commands, flat captures and named-loop (nested) variables, produced by fixed programs that capture arbitrary bytes (five of them with captures and named loops called like members of the output format: offset, column, value, variables, filename, replacement, matchNumber, key, null) and by the any-program generator, over texts with quotes, backslashes, control bytes, <>&, U+2028/2029, multi-byte UTF-8, invalid UTF-8, and code points of every plane (format characters incl. astral tag characters, C1 controls, non-characters, private use, U+10FFFF; fixed and seeded random). Also RunFiles results whose file names need escaping or are spelled in a non-canonical way (quotes, backslash, <&>, non-ASCII, newline and tab in names; dir//name, dir/./name, dir/sub/../name; a directory argument with a trailing slash): the filename member must be the in-memory name, byte for byte. Also lists of 511 .. 20 000 matches (sizes at and next to powers of two and ten, every thousand, ten seed-chosen sizes), and EVERY list length from 1 to 1 500 (thorough: 9 000) rendered both ways and validated inside the worker; the nil list, the empty list and an emptied list (what a caller collecting results builds itself) must render as equal documents both ways. After the texts of a case a result list that has been rendered is refilled in place with the matches of another text (same length) and rendered again: it must give that other list's document. Oracle: Json() and FormattedJson() return without panic, json.Valid, decode to equal documents, one object per match whose fields equal the in-memory match (replacement present iff the match has one); exact string equality is demanded where the in-memory strings are valid UTF-8. Non-trivial = a result list with >= 1 match rendered and decoded; distinct by (program, text)."
+	r.Rule = "result lists empty / one / many from find and replace commands, flat captures and named-loop (nested) variables, produced by fixed programs that capture arbitrary bytes (five of them with captures and named loops called like members of the output format: offset, column, value, variables, filename, replacement, matchNumber, key, null) and by the any-program generator, over texts with quotes, backslashes, control bytes, the replacement character U+FFFD written as a character (well-formed text, not the stand-in for a broken byte), <>&, U+2028/2029, multi-byte UTF-8, invalid UTF-8, and code points of every plane (format characters incl. astral tag characters, C1 controls, non-characters, private use, U+10FFFF; fixed and seeded random). Also RunFiles results whose file names need escaping or are spelled in a non-canonical way (quotes, backslash, <&>, non-ASCII, newline and tab in names; dir//name, dir/./name, dir/sub/../name; a directory argument with a trailing slash): the filename member must be the in-memory name, byte for byte. Also lists of 511 .. 20 000 matches (sizes at and next to powers of two and ten, every thousand, ten seed-chosen sizes), and EVERY list length from 1 to 1 500 (thorough: 9 000) rendered both ways and validated inside the worker; the nil list, the empty list and an emptied list (what a caller collecting results builds itself) must render as equal documents both ways. After the texts of a case a result list that has been rendered is refilled in place with the matches of another text (same length) and rendered again: it must give that other list's document. Oracle: Json() and FormattedJson() return without panic, json.Valid, decode to equal documents, one object per match whose fields equal the in-memory match (replacement present iff the match has one); exact string equality is demanded where the in-memory strings are valid UTF-8. Non-trivial = a result list with >= 1 match rendered and decoded; distinct by (program, text)."
 	r.Assumptions = []string{"strings that are not valid UTF-8 cannot round-trip through JSON; for those only validity, document equality of the two renderings and all non-string fields are demanded"}
 	fixed := len(c17Programs)
 	r.Exec(6*fixed+n, drv.ExecOpts{Batch: 100}, func(i int) *drv.Item {
@@ -308,7 +308,7 @@ func c17Files(r *drv.Run) {
 	dir := filepath.Join(r.WorkDir, "c17files")
 	os.MkdirAll(filepath.Join(dir, "sub"), 0o755)
 	os.MkdirAll(filepath.Join(dir, "d i r"), 0o755)
-	names := []string{"plain.txt", "we\"ird\\na'me<&>.txt", "caf\u00e9 \u20ac \U0001F600.txt", "new\nline\ttab.txt", "sub/inner.txt", "d i r/a b.txt", "sub/%d.txt"}
+	names := []string{"plain.txt", "we\"ird\\na'me<&>.txt", "caf\u00e9 \u20ac \U0001F600.txt", "new\nline\ttab.txt", "sub/inner.txt", "d i r/a b.txt", "sub/%d.txt", "repl\ufffdacement \ufffd.txt"}
 	content := []byte("he said \"hi\" 12\nab <b>&amp; caf\u00e9 7\n")
 	for _, n := range names {
 		os.WriteFile(filepath.Join(dir, n), content, 0o644)
